@@ -264,7 +264,9 @@ def run_cfg(case, cfg, ref):
 def judge(case, cfg, res, exc, exceeded, ref, o: Outcome, label):
     feats = dict(target="solve_milp", lns=cfg["lns_iterations"] > 0, kind=("unbounded" if case["free_var"] is not None else "boxed"))
     if exceeded:
-        o.probe("step_budget_skip")
+        # the statement is about what solve_milp returns; on these <=5-variable programs the legitimate work is below 0.2 M
+        # events (measured), so 6 M events without returning means no result will be delivered
+        o.violate(PROP, "no_return", f"{label}: solve_milp did not return within {STEP_LIMIT} events on a {len(case['c'])}-variable program", **feats)
         return None
     if exc is not None:
         o.violate(PROP, f"exception:{type(exc).__name__}", f"{label}: solve_milp raised {type(exc).__name__}: {exc}", **feats)
